@@ -250,7 +250,10 @@ Section Codec.
         end
     end.
 
-  (* Saver.save_from *)
+  (* Saver.save_from.  With an executor the chunk writes are futures: finished ones are dropped
+     only after reading their outcome (Saver._drop_finished), the rest is awaited before the
+     normal exit and by close.  Without I/O faults (property C04's topic) every write succeeds, so
+     here the executor only decides whether `filesize` is recorded (make_info). *)
   Definition save_from (cfg : save_cfg) (s : saver) (cs : list chunk) : saver * res unit :=
     match md_run (sv_md s) with
     | None => (s, Err E_MD_KEY)          (* Rechunker(run_id=self.md["run_id"]) before the try *)
